@@ -135,6 +135,16 @@ Section Sink.
     end.
 End Sink.
 
+(* ---- the stated limit of a chunk-size line (on_encoded_chunk_prefix: MAX_CHUNK_SIZE_LINE_LENGTH): a line that is complete
+        only beyond [limit] bytes is refused, and so is a line still undecided once [limit] bytes are there. The limited
+        parser is again a chunk-size line parser, so the sink above is the code's sink when [psize] is [bounded limit p]. ---- *)
+Definition bounded (limit : nat) (p : list N -> csize) (d : list N) : csize :=
+  match p d with
+  | CComplete pos size => if limit <? pos then CError else CComplete pos size
+  | CPartial => if limit <=? length d then CError else CPartial
+  | CError => CError
+  end.
+
 (* ---- a concrete chunk-size line parser for the executable model: hex digits, optional
         extension introduced by ';' (or blanks), CR LF ---- *)
 Definition hexval (c : N) : option nat :=
